@@ -17,6 +17,9 @@
 //!       "chunked_complete"      Transfer-Encoding: chunked, whole body + terminator
 //!       "cut_after"             Content-Length = full length, "k" body bytes, then close
 //!       "chunked_cut_after"     chunked, cut after "k" body bytes (mid-chunk, no terminator)
+//!       "close_delimited_cut"   no Content-Length and no chunking (the body ends where the connection
+//!                               does): "k" body bytes, then an orderly close - nothing on the wire
+//!                               tells the client that the body is short
 //!       "header_cut"            only the first "k" bytes of the header block, then close
 //!       "stall_before_headers"  read the request, send nothing, wait for the client to go away
 //!       "stall_mid_body"        headers + "k" body bytes, then wait for the client to go away
@@ -26,8 +29,8 @@
 //!   "location":  value of a Location header (3xx)
 //!   "stall_cap_ms": upper bound for a stall (default 15000)
 //!
-//! A truncated body is always detectable by the client (Content-Length or
-//! chunked framing); a close-delimited 200 is never produced.
+//! In every mode but "close_delimited_cut" a truncated body is detectable by the client from
+//! the framing (Content-Length or chunked).
 
 use serde_json::Value as J;
 use std::io::{Read, Write};
@@ -221,6 +224,13 @@ fn serve(sc: &Script, mut s: TcpStream) {
             let _ = write_paced(&mut s, &sc.body[..k]);
             sc.log(&format!("SENT {}", k));
             close_with(s, sc.rst);
+            sc.log("DONE");
+        }
+        "close_delimited_cut" => {
+            let _ = s.write_all(&head(sc, ""));
+            let _ = write_paced(&mut s, &sc.body[..k]);
+            sc.log(&format!("SENT {}", k));
+            close_with(s, false);
             sc.log("DONE");
         }
         "chunked_cut_after" => {
